@@ -82,17 +82,18 @@ def extract():
 
     # serialize/serializer_6.py: selector class orders, tags, reader phases (C04)
     try:
-        t.update(_serializer_tables(_parse("modelx/serialize/serializer_6.py")))
+        t.update(_serializer_tables(_parse("modelx/serialize/serializer_6.py"), problems))
     except Exception as e:
-        problems.append((["encoderClasses", "decoderClasses", "parserClasses", "literalTypes", "unconditionalClasses",
-                          "instructionMethods", "atParseMethods", "encoderTags", "decoderTags", "readerPhases"],
-                         "serializer_6.py selector tables not found: %r" % e))
-        for k in ("encoderClasses", "decoderClasses", "parserClasses", "literalTypes", "unconditionalClasses",
-                  "instructionMethods", "atParseMethods"):
+        problems.append((list(_SERIALIZER_KEYS), "serializer_6.py selector tables not found: %r" % e))
+        for k in _SERIALIZER_KEYS:
             t.setdefault(k, [])
-        t.setdefault("encoderTags", [])
-        t.setdefault("decoderTags", [])
-        t.setdefault("readerPhases", [])
+
+    # core/formula.py: _DOCSTR_ESCAPES (C04, C20)
+    try:
+        t["docstrEscapes"] = _docstr_escapes(_parse("modelx/core/formula.py"))
+    except Exception as e:
+        problems.append((["docstrEscapes"], "_DOCSTR_ESCAPES not found in core/formula.py: %r" % e))
+        t["docstrEscapes"] = []
 
     # space.py: order of the namespace chain and of the reference chains (C12)
     try:
@@ -514,6 +515,77 @@ def _namespace_tables(tree):
     return t
 
 
+_SERIALIZER_KEYS = ("encoderClasses", "literalTypes", "unconditionalClasses", "instructionMethods",
+                    "atParseMethods", "encoderTags", "decoderTags", "decoderCompatTags", "encoderConditions",
+                    "decoderConditions", "readerPhases", "readerSteps")
+
+
+def _docstr_escapes(tree):
+    """the dict literal `_DOCSTR_ESCAPES` of formula.py as [(code point, [code points of the replacement])]"""
+    v = _find_assign(tree, "_DOCSTR_ESCAPES")
+    if not isinstance(v, ast.Dict):
+        raise ValueError("_DOCSTR_ESCAPES is not a dict display")
+    res = []
+    for k, val in zip(v.keys, v.values):
+        if not (isinstance(k, ast.Constant) and isinstance(k.value, str) and len(k.value) == 1
+                and isinstance(val, ast.Constant) and isinstance(val.value, str)):
+            raise ValueError("unknown entry " + ast.unparse(k))
+        res.append((ord(k.value), [ord(c) for c in val.value]))
+    if not res:
+        raise ValueError("empty table")
+    return res
+
+
+def _condition_source(tree, name):
+    """normalised source text (ast.unparse, docstring dropped) of the `condition` classmethod that class `name`
+    uses: its own, or the one of the first base class (in this file) that defines one"""
+    seen = set()
+    while name and name not in seen:
+        seen.add(name)
+        cls = _class(tree, name)
+        if cls is None:
+            break
+        m = _method(cls, "condition")
+        if m is not None:
+            if [ast.unparse(d) for d in m.decorator_list] != ["classmethod"]:
+                raise ValueError("%s.condition is not a plain classmethod" % name)
+            body = [b for b in m.body if not (isinstance(b, ast.Expr) and isinstance(b.value, ast.Constant)
+                                              and isinstance(b.value.value, str))]
+            return "(%s) %s" % (", ".join(a.arg for a in m.args.args), "; ".join(
+                ast.unparse(b).replace("\n", " ") for b in body))
+        name = next((getattr(b, "id", None) for b in cls.bases if getattr(b, "id", None)), None)
+    raise ValueError("no condition found for " + str(name))
+
+
+def _encoder_tag(name, m):
+    """the tag written as the first element of the tuple text that `encode()` returns; "" when every return
+    value is the bare text of a literal (`str(...)` / `json.dumps(...)`).  Anything else is not understood."""
+    import re
+    kinds = set()
+    for node in ast.walk(m):
+        if not isinstance(node, ast.Return):
+            continue
+        v = node.value
+        fmt = None
+        if isinstance(v, ast.BinOp) and isinstance(v.op, ast.Mod) and isinstance(v.left, ast.Constant) \
+                and isinstance(v.left.value, str):
+            fmt = v.left.value
+        elif isinstance(v, ast.Constant) and isinstance(v.value, str):
+            fmt = v.value
+        if fmt is not None:
+            mm = re.match(r'\(\"(\w+)\", ', fmt)
+            if not mm:
+                raise ValueError("encoder %s returns a text that does not start with a tag: %r" % (name, fmt))
+            kinds.add(mm.group(1))
+        elif isinstance(v, ast.Call) and ast.unparse(v.func) in ("str", "json.dumps"):
+            kinds.add("")
+        else:
+            raise ValueError("encoder %s: return value not understood: %s" % (name, ast.unparse(v)[:60]))
+    if len(kinds) != 1:
+        raise ValueError("encoder %s writes %s" % (name, sorted(kinds) or "nothing"))
+    return kinds.pop()
+
+
 def _class_list(tree, clsname, attr):
     cls = _class(tree, clsname)
     for node in cls.body:
@@ -522,49 +594,43 @@ def _class_list(tree, clsname, attr):
     raise ValueError("%s.%s" % (clsname, attr))
 
 
-def _serializer_tables(tree):
+def _serializer_tables(tree, problems):
     import re
     t = {}
     t["encoderClasses"] = _class_list(tree, "EncoderSelector", "classes")
-    t["decoderClasses"] = _class_list(tree, "DecoderSelector", "classes")
-    t["parserClasses"] = _class_list(tree, "ParserSelector", "classes")
+    decoder_classes = _class_list(tree, "DecoderSelector", "classes")
     t["literalTypes"] = _class_list(tree, "LiteralEncoder", "literal_types")
 
+    # the `condition` of every selector class, as normalised source text
+    t["encoderConditions"] = [(n, _condition_source(tree, n)) for n in t["encoderClasses"]]
+    t["decoderConditions"] = [(n, _condition_source(tree, n)) for n in decoder_classes]
+
     # classes whose `condition` is `return True`
-    uncond = []
-    for name in t["encoderClasses"] + t["decoderClasses"]:
-        m = _method(_class(tree, name), "condition")
-        if m is not None:
-            body = [b for b in m.body if not (isinstance(b, ast.Expr) and isinstance(b.value, ast.Constant))]
-            if (len(body) == 1 and isinstance(body[0], ast.Return)
-                    and isinstance(body[0].value, ast.Constant) and body[0].value.value is True):
-                uncond.append(name)
-    t["unconditionalClasses"] = uncond
+    t["unconditionalClasses"] = [n for n, c in t["encoderConditions"] + t["decoderConditions"]
+                                 if c.split(") ", 1)[1] == "return True"]
 
-    # tag an encoder writes: first ("Tag" in a string constant of its encode(); "" = bare literal
-    enc_tags = []
+    # tag an encoder writes as the first element of its tuple text; "" = the bare text of a literal
+    t["encoderTags"] = []
     for name in t["encoderClasses"]:
-        m = _method(_class(tree, name), "encode")
-        tags = []
-        for node in ast.walk(m):
-            if isinstance(node, ast.Constant) and isinstance(node.value, str):
-                mm = re.match(r'\(\"(\w+)\"', node.value)
-                if mm:
-                    tags.append(mm.group(1))
-        if len(set(tags)) > 1:
-            raise ValueError("encoder %s writes several tags %s" % (name, tags))
-        enc_tags.append((name, tags[0] if tags else ""))
-    t["encoderTags"] = enc_tags
+        try:
+            t["encoderTags"].append((name, _encoder_tag(name, _method(_class(tree, name), "encode"))))
+        except ValueError as e:
+            # no answer is better than a wrong one: the class is left out of the table (the theorems over
+            # `encoderTags` then speak about fewer classes) and the table is reported as not extracted
+            problems.append((["encoderTags"], str(e)))
 
-    # tag a decoder accepts: DECTYPE class attribute; "" = none
-    dec_tags = []
-    for name in t["decoderClasses"]:
+    # tag a decoder accepts: DECTYPE class attribute ("" = none), and DECTYPE_COMPAT
+    dec_tags, compat = [], []
+    for name in decoder_classes:
         tag = ""
         for node in _class(tree, name).body:
             if isinstance(node, ast.Assign) and node.targets[0].id == "DECTYPE":
                 tag = node.value.value
+            if isinstance(node, ast.Assign) and node.targets[0].id == "DECTYPE_COMPAT":
+                compat.append((name, node.value.value))
         dec_tags.append((name, tag))
     t["decoderTags"] = dec_tags
+    t["decoderCompatTags"] = compat
 
     # phases of ModelReader._read_model_inner
     phases = []
@@ -575,6 +641,26 @@ def _serializer_tables(tree):
     t["readerPhases"] = [p for _, p in sorted(phases)]
     if not t["readerPhases"]:
         raise ValueError("no execute_selected_methods call")
+
+    # every statement of _read_model_inner, in order: ("phase", i) for the i-th execute_selected_methods call,
+    # (<name>, 0) for any other `[x =] self.<name>()`, ("return", 0) - anything else is not understood
+    steps, k = [], 0
+    for st in _method(_class(tree, "ModelReader"), "_read_model_inner").body:
+        v = st.value if isinstance(st, (ast.Expr, ast.Assign)) else None
+        if isinstance(st, ast.Return) and isinstance(st.value, ast.Name):
+            steps.append(("return", 0))
+        elif isinstance(v, ast.Call) and isinstance(v.func, ast.Attribute) and v.func.attr == "execute_selected_methods" \
+                and ast.unparse(v.func.value) == "self.instructions":
+            steps.append(("phase", k))
+            k += 1
+        elif isinstance(v, ast.Call) and isinstance(v.func, ast.Attribute) and ast.unparse(v.func.value) == "self" \
+                and not v.args and not v.keywords:
+            steps.append((v.func.attr, 0))
+        else:
+            raise ValueError("_read_model_inner: statement not understood: " + ast.unparse(st)[:60])
+    if k != len(t["readerPhases"]):
+        raise ValueError("_read_model_inner: execute_selected_methods is also called inside another statement")
+    t["readerSteps"] = steps
 
     # names under which parsers file their instructions (Instruction.func.__name__)
     methods, at_parse = [], []
@@ -622,8 +708,12 @@ def _serializer_tables(tree):
     return t
 
 
+def _lean_str(x):
+    return '"' + x.replace("\\", "\\\\").replace('"', '\\"').replace("\n", "\\n") + '"'
+
+
 def _lean_pair_list(xs):
-    return "[" + ", ".join('("%s", "%s")' % (a, b) for a, b in xs) + "]"
+    return "[" + ", ".join("(%s, %s)" % (_lean_str(a), _lean_str(b)) for a, b in xs) + "]"
 
 
 def render(t):
@@ -641,18 +731,27 @@ def render(t):
         "def dynRefsOrder : List String := " + _lean_str_list(t["dynRefsOrder"]),
         "/-- serializer_6.py: EncoderSelector.classes, in selection order -/",
         "def encoderClasses : List String := " + _lean_str_list(t["encoderClasses"]),
-        "/-- DecoderSelector.classes, in selection order -/",
-        "def decoderClasses : List String := " + _lean_str_list(t["decoderClasses"]),
-        "/-- ParserSelector.classes, in selection order -/",
-        "def parserClasses : List String := " + _lean_str_list(t["parserClasses"]),
         "/-- LiteralEncoder.literal_types -/",
         "def literalTypes : List String := " + _lean_str_list(t["literalTypes"]),
         "/-- selector classes whose `condition` is `return True` -/",
         "def unconditionalClasses : List String := " + _lean_str_list(t["unconditionalClasses"]),
         "/-- (encoder class, tag it writes as first tuple element; \"\" = a bare literal) -/",
         "def encoderTags : List (String × String) := " + _lean_pair_list(t["encoderTags"]),
-        "/-- (decoder class, DECTYPE it accepts; \"\" = none) -/",
+        "/-- DecoderSelector.classes in selection order: (decoder class, DECTYPE it accepts; \"\" = none) -/",
         "def decoderTags : List (String × String) := " + _lean_pair_list(t["decoderTags"]),
+        "/-- (decoder class, DECTYPE_COMPAT: a second tag it accepts, written by older versions) -/",
+        "def decoderCompatTags : List (String × String) := " + _lean_pair_list(t["decoderCompatTags"]),
+        "/-- (encoder class, `(parameters) body` of the `condition` it uses, normalised with ast.unparse) -/",
+        "def encoderConditions : List (String × String) := " + _lean_pair_list(t["encoderConditions"]),
+        "/-- the same for the decoder classes (an inherited `condition` is listed for the inheriting class) -/",
+        "def decoderConditions : List (String × String) := " + _lean_pair_list(t["decoderConditions"]),
+        "/-- the statements of ModelReader._read_model_inner in order: (\"phase\", i) = the i-th call of",
+        "execute_selected_methods, (name, 0) = `self.name()`, (\"return\", 0) -/",
+        "def readerSteps : List (String × Nat) := [" + ", ".join(
+            "(%s, %d)" % (_lean_str(a), b) for a, b in t["readerSteps"]) + "]",
+        "/-- core/formula.py _DOCSTR_ESCAPES: (code point, code points of the replacement text) -/",
+        "def docstrEscapes : List (Nat × List Nat) := [" + ", ".join(
+            "(%d, [%s])" % (k, ", ".join(str(c) for c in v)) for k, v in t["docstrEscapes"]) + "]",
         "/-- ModelReader._read_model_inner: the method names executed, phase by phase -/",
         "def readerPhases : List (List String) := [" + ", ".join(_lean_str_list(p) for p in t["readerPhases"]) + "]",
         "/-- names under which the parsers file deferred instructions -/",
